@@ -179,6 +179,34 @@ class Accepts(Contract):
         return {"supported_value_is_accepted": V(False)}
 
 
+_README = {}
+
+
+def readme_values(repo):
+    """{family: [values]} from the 'Allowed Values' section of src/scenarios/README.md."""
+    if repo in _README:
+        return _README[repo]
+    out, fam = {}, None
+    import re as _re
+    txt = open(os.path.join(repo, "src/scenarios/README.md")).read()
+    sec = txt[txt.index("## Allowed Values"):]
+    sec = sec[:sec.index("## Detailed Notes")] if "## Detailed Notes" in sec else sec
+    for line in sec.splitlines():
+        m = _re.match(r"^- \*\*(\w+)\*\*", line)
+        if m:
+            fam = m.group(1)
+            continue
+        m = _re.match(r"^\s+- `([^`]+)`", line)
+        if m and fam:
+            out.setdefault(fam, []).append(m.group(1))
+    _README[repo] = out
+    return out
+
+
+# values the loader accepts that neither README nor ALSO_SUPPORTED lists, each named by its setter's own description
+UNDOCUMENTED_BUT_DESCRIBED = {}
+
+
 class Rejects(Contract):
     prop = "C13"
     file = RS
@@ -196,6 +224,14 @@ class Rejects(Contract):
         opts = dict(BASE)
         if self.how == "missing":
             del opts[self.family]
+        elif self.how == "any_other_string":
+            # EVERY string that is not one of the supported spellings (the empty string, prefixes, concatenations, ...)
+            v = S.str("unsupported_value")
+            supported = sorted(set(list(DOCUMENTED.get(self.family, [])) + list(ALSO_SUPPORTED.get(self.family, []))
+                                   + readme_values(S.I.repo).get(self.family, []) + UNDOCUMENTED_BUT_DESCRIBED.get(self.family, [])))
+            import z3 as _z3
+            S.assume(V(Sym(_z3.And(*[unwrap(v).t != _z3.StringVal(x) for x in supported]), "bool")))
+            opts[self.family] = unwrap(v)
         else:
             opts[self.family] = "not_an_option"
         return dict(args=[S.obj(RS, "ScenarioRunner"), opts, country_row(S)], opts=opts, snapshot=dict(opts))
@@ -436,6 +472,7 @@ def _mk():
     for fam in list(DOCUMENTED) + ["scale"]:
         cs.append(Rejects(fam, "unknown"))
         cs.append(Rejects(fam, "missing"))
+        cs.append(Rejects(fam, "any_other_string"))
     names = list(SETTERS)
     by_flag = {}
     for n in names:
